@@ -188,3 +188,35 @@ Definition enabled (s : state) (t : nat) (x : tx) (ev : event) : Prop :=
   | Accept _ a => a <> t /\ exists ap, th s a = TApp ap /\ a_pc ap = AOffer t
   | _ => True
   end.
+
+(* ---------------------------------------------------------------- whole executions *)
+
+(** events that are steps of thread t itself (its program's visible steps and its hook body's Lock/Unlock); every other
+    event of the alphabet is the environment's: other threads, the ticker (Tick), application toggles / offers / Mutate
+    (also a Mutate issued from t's own hook body: it touches message content only), Cancel *)
+Definition own (t : nat) (ev : event) : bool :=
+  match ev with
+  | Lock u | Unlock u | Access u _ | HookCall u | HookRet u _ | TxInit u | Apply u | GetWake u | Wake u | Accept u _
+  | TickTake u | Transmit u _ _ | Done u _ | Recv u _ | RxFrame u | Lookup u _ | RecvErr u _ => Nat.eqb u t
+  | _ => false
+  end.
+
+(** the fields of the transmitter record that [sim] looks at *)
+Definition same_sim (x x' : tx) : Prop :=
+  t_pc x' = t_pc x /\ t_armed x' = t_armed x /\ t_cyclic x' = t_cyclic x /\ t_gotwake x' = t_gotwake x /\ t_last x' = t_last x.
+
+(** an execution of the linked transmitter programs by thread t interleaved with arbitrary environment transitions of the
+    LTS: silent program steps, visible program steps (taken when the environment enables them), environment steps;
+    the list is the trace of LTS events *)
+Inductive texec (dc dt : bool) (t : nat) : tcfg -> state -> list event -> tcfg -> state -> Prop :=
+| te_nil : forall c s, texec dc dt t c s [] c s
+| te_silent : forall c s x o b arm a c' tr c2 s2,
+    th s t = TTx x -> tnext dc dt t x c o b arm a = Some (None, c') ->
+    texec dc dt t c' s tr c2 s2 -> texec dc dt t c s tr c2 s2
+| te_visible : forall c s x o b arm a ev c' s' tr c2 s2,
+    th s t = TTx x -> tnext dc dt t x c o b arm a = Some (Some ev, c') -> enabled s t x ev ->
+    step_fn s ev = Some s' ->
+    texec dc dt t c' s' tr c2 s2 -> texec dc dt t c s (ev :: tr) c2 s2
+| te_env : forall c s ev s' tr c2 s2,
+    own t ev = false -> step_fn s ev = Some s' ->
+    texec dc dt t c s' tr c2 s2 -> texec dc dt t c s (ev :: tr) c2 s2.
